@@ -26,6 +26,9 @@ func (c *FnCtx) call(fr *Frame, st *State, call *ssa.CallCommon, instr *ssa.Call
 	default:
 		fv := c.val(fr, call.Value)
 		switch {
+		case fv.Cancel:
+			h := c.cancelComp()
+			c.heapSet(st, h, "(store "+c.heapGet(st, h)+" "+fv.E+" true)")
 		case fv.Clo != nil:
 			res = c.callFunc(fr, st, fv.Clo.Fn, fv.Clo.Bindings, args, pos)
 		default:
@@ -74,7 +77,7 @@ func (c *FnCtx) builtin(fr *Frame, st *State, b *ssa.Builtin, args []Val, call *
 		}
 	case "append":
 		if len(args) == 2 {
-			if args[1].E == "nil-slice" {
+			if args[1].E == nilSlice {
 				return &args[0]
 			}
 			r := c.appendSlice(st, args[0], args[1], pos)
@@ -258,7 +261,16 @@ func (c *FnCtx) callWithContract(fr *Frame, st *State, fn *ssa.Function, spec *F
 		if e.Mode != "" && e.Mode != c.mode {
 			continue
 		}
+		if g, ok := c.tryEvalBool(env2, e.E); ok {
+			c.assume(st, g)
+		}
+	}
+	for _, e := range spec.Trusts {
 		c.assume(st, c.evalBool(env2, e.E))
+		c.assumed["trusted postcondition of "+name+": "+e.Text] = true
+	}
+	if r := tupleVal(resT, vs); r != nil {
+		c.lastCall[fn.Name()] = *r
 	}
 	return tupleVal(resT, vs)
 }
@@ -327,11 +339,23 @@ func (c *FnCtx) callUnknown(fr *Frame, st *State, fv Val, ft types.Type, args []
 		m.all = true
 		c.unmodelled["callback of type "+shortTypeName(ft)] = true
 	}
+	n := c.sc.Define("cbn", sInt, c.heapGet(st, c.cbCallsComp()))
 	c.eng.onCallback(c, st, cb, fv, args, pos)
 	c.havocSet(st, m, "cb")
 	var vs []Val
 	for k := 0; k < resT.Len(); k++ {
 		vs = append(vs, c.fresh("cbret", resT.At(k).Type(), st))
+	}
+	// ghost call log: which function value was called n-th, and what it returned
+	fh := c.comp("ghost$cbfn", "(Array Int Int)")
+	c.heapSet(st, fh, "(store "+c.heapGet(st, fh)+" "+n+" "+fv.E+")")
+	for k, v := range vs {
+		srt := c.ty.SortOf(v.T)
+		if srt != sInt && srt != sBool && srt != sIface {
+			continue
+		}
+		rh := c.comp(fmt.Sprintf("ghost$cbres$%s$%d", srt, k), "(Array Int "+srt+")")
+		c.heapSet(st, rh, "(store "+c.heapGet(st, rh)+" "+n+" "+v.E+")")
 	}
 	return tupleVal(resT, vs)
 }
@@ -422,4 +446,19 @@ func (c *FnCtx) invoke(fr *Frame, st *State, recv Val, m *types.Func, args []Val
 		vs[k] = Val{T: t, E: c.sc.Define("disp", c.ty.SortOf(t), term)}
 	}
 	return tupleVal(resT, vs)
+}
+
+// tryEvalBool evaluates a callee postcondition at a call site; clauses that talk about the callee's internal ghost
+// handles (lastcall(...)) have no meaning for the caller and are simply not assumed.
+func (c *FnCtx) tryEvalBool(env *Env, e Expr) (g string, ok bool) {
+	defer func() {
+		if r := recover(); r != nil {
+			if se, isSpec := r.(specError); isSpec && (strings.Contains(string(se), "lastcall(") || strings.Contains(string(se), "unknown name")) {
+				ok = false
+				return
+			}
+			panic(r)
+		}
+	}()
+	return c.evalBool(env, e), true
 }
